@@ -32,8 +32,11 @@ def replay_instances(ctx):
         ("a3", {"Addrs": A3, "TTLs": "{0, 2, 8}", "Conn": 8, "Seqs": "{1, 2}", "Cap": 0, "MaxBatch": 3}, 40, 150 if q else 2000, 60),
         # two addresses, two finite classes, connected and permanent
         ("a2", {"Addrs": A2, "TTLs": "{0, 2, 4, 8}" if q else "{0, 2, 4, 8, 9}", "Conn": 8, "Seqs": "{1, 2}" if q else "{1, 2, 3}", "Cap": 0, "MaxBatch": 2}, 40, 150 if q else 2000, 60),
-        # binding per-peer cap, one-address calls, connected class included
-        ("cap", {"Addrs": A3, "TTLs": "{0, 2, 8}", "Conn": 8, "Seqs": "{1, 2}", "Cap": 2, "MaxBatch": 1}, 40, 150 if q else 1000, 60),
+        # binding per-peer cap with the connected class: quick = ordered batches of up to two addresses and one
+        # sequence number (a call that moves a stored entry across the connected class and then inserts);
+        # thorough = one-address calls with two sequence numbers (capo below has the ordered batches there)
+        ("cap", {"Addrs": A3, "TTLs": "{0, 2, 8}", "Conn": 8, "Seqs": "{1}" if q else "{1, 2}", "Cap": 2,
+                 "MaxBatch": 2 if q else 1}, 40, 150 if q else 1000, 60),
         # binding cap, ORDERED batches of up to two addresses (refreshed-existing then new, new then
         # existing, two new) with two finite classes so that the nearest expiry is unique
         ("capo", {"Addrs": A3, "TTLs": "{0, 2, 3}" if q else "{0, 2, 3, 8}", "Conn": 8, "Seqs": "{1}", "Cap": 2, "MaxBatch": 2},
